@@ -120,14 +120,18 @@ Definition check_function (c : ens_case) (f : fcase) : bool :=
           end
       | GStd sg var =>
           let sigma := f_sigma f in
-          Qleb 0 sigma && close (S * S) (sigma * sigma) var &&
-          vclose (S * S) (qscale sigma (f_grad f)) sg &&
+          (* rounding of sigma^2 and of sigma * grad sigma grows with (largest value) x (spread of the values), not
+             with the square of the largest value: offsets that are huge compared with the spread must not widen
+             the comparison *)
+          let T := S * (1 + sigma) in
+          Qleb 0 sigma && close T (sigma * sigma) var &&
+          vclose T (qscale sigma (f_grad f)) sg &&
           (* sigma = 0: the estimator returns zeros *)
           (negb (Qeqb sigma 0) || forallb (fun y => Qeqb y 0) (f_grad f)) &&
           match f_slopes f with
           | None => true
           | Some sl =>
-              vclose (S * S) (qscale sigma (f_grad f))
+              vclose T (qscale sigma (f_grad f))
                      (expand_with_zeros mask
                         (affine_sd_gradient n wh (nan_to_num (f_f0 f))
                            (map (fun a => restrict_free mask (scale_slope (c_scales c) a)) sl)))
